@@ -975,10 +975,10 @@ func registerC08() {
 		id: "C08",
 		rule: "same engine; directed list enumerates ALL tuples of shard kinds {ok, unready, status-GET fails, runtime-GET fails, push accepted->match, push accepted->still differs, push rejected, push accepted->second GET fails} over 1-4 positions x pending work {new targets, relief, scale-down} x idle mode; then random cases with a high share of unhealthy shards; the per-shard request log is judged; " +
 			"plus 96 two-cycle cases on one coordinator object in which the same shard reports another hash in both cycles (push kinds x push kinds x position x pending work); " +
-			"plus 1/4 closed loops (engine E2, real api.Get / api.Post over loopback): one shard lists 7000-16000 targets (status answer above 1.5 MiB), is reachable but reports another hash and rejects the push for two cycles: no target update to it, none of its targets given to the other shard, then it takes part again; " +
+			"plus 1/4 closed loops (engine E2, real api.Get / api.Post over loopback): one shard lists 9000-16500 targets (status answer above 1.25 MiB), is reachable but reports another hash and rejects the push for two cycles: no target update to it, none of its targets given to the other shard, then it takes part again; " +
 			"non-trivial = at least one shard not in sync and at least one in sync, or a hash-mismatch shard; distinct = hash of the case with sizes bucketed",
 		judge: judgeC08, nDirect: nA + nB, direct: direct,
-		// closed loop (engine E2, real api.Get/api.Post): one shard with 7000-16000 targets, reachable and out of sync
+		// closed loop (engine E2, real api.Get/api.Post): one shard with 9000-16500 targets, reachable and out of sync
 		nExtra:  map[string]int{"quick": e2.C08BigCases("quick"), "thorough": e2.C08BigCases("thorough")},
 		extra:   e2.RunC08Big,
 		bias:    genBias{unhealthyPer12: 6},
